@@ -13,6 +13,7 @@ from stone.backends.python_helpers import (
     fmt_var,
     generate_imports_for_referenced_namespaces,
     generate_module_header,
+    TYPE_IGNORE_COMMENT,
     validators_import_with_type_ignore,
 )
 from stone.backends.python_type_mapping import (
@@ -37,6 +38,7 @@ from stone.ir import (
     Timestamp,
     Union,
     unwrap_aliases,
+    UserDefined,
 )
 from stone.ir.data_types import String
 from stone.typing_hacks import cast
@@ -433,12 +435,28 @@ class PythonTypeStubsBackend(CodeBackend):
             self.import_tracker._register_typing_import("Text")
             return "Text"
 
+        def upon_encountering_user_defined(
+            ns, data_type, override_dict
+        ):  # pylint: disable=unused-argument
+            # type: (ApiNamespace, DataType, OverrideDefaultTypesDict) -> typing.Text
+            # A type reached only through an alias or an inherited field of
+            # an imported namespace can live in a namespace that is not.
+            if data_type.namespace not in [ns] + ns.get_imported_namespaces(
+                    consider_annotation_types=True):
+                self.import_tracker._register_adhoc_import(
+                    'from {} import {}{}'.format(
+                        self.args.package,
+                        fmt_namespace(data_type.namespace.name),
+                        TYPE_IGNORE_COMMENT))
+            return map_stone_type_to_python_type(ns, data_type)
+
         callback_dict = {
             List: upon_encountering_list,
             Map: upon_encountering_map,
             Nullable: upon_encountering_nullable,
             Timestamp: upon_encountering_timestamp,
             String: upon_encountering_string,
+            UserDefined: upon_encountering_user_defined,
         }  # type: OverrideDefaultTypesDict
         return callback_dict
 
@@ -478,7 +496,7 @@ class PythonTypeStubsBackend(CodeBackend):
 
             if self.import_tracker.cur_namespace_adhoc_imports:
                 self.emit("")
-                for to_import in self.import_tracker.cur_namespace_adhoc_imports:
+                for to_import in sorted(self.import_tracker.cur_namespace_adhoc_imports):
                     self.emit(to_import)
 
         self.add_named_placeholder('imports_needed_for_typing', output_buffer.getvalue())
